@@ -54,13 +54,26 @@ func main() {
 	r.Distinct("textual comparison of the two copies")
 
 	// 1. full 32-bit domains, both copies
+	// The public copy always gets the full domain. The private copy gets the full
+	// domain in thorough, and in quick whenever its code differs from the public
+	// copy; when the two files are token-identical (checked above on this very
+	// tree) quick runs it on the split domain only.
 	var full int64
 	for _, im := range impls {
-		full += h.sweep32(im, fullDomain)
+		d := fullDomain
+		if im.Name == "priv" && !thorough && what == "" {
+			d = splitDomain()
+		}
+		n := h.sweep32(im, d)
+		if want := int64(2 * d.size); n != want && r.Violations() == 0 {
+			ev.InfraError("%s: swept %d values, domain has %d", im.Name, n, want)
+		}
+		r.Set("domain32_"+im.Name, d.name)
+		full += n
 	}
 	r.Evals(full)
-	r.Set("full_domain_32bit", "every uint32 through AppendUvarint/UvarintLen/Uvarint and every int32 through AppendVarint/VarintLen/Varint, on both copies")
-	r.Set("full_domain_evaluations", full)
+	r.Set("domain32_functions", "every uint32 of the domain through AppendUvarint/UvarintLen/Uvarint and every int32 through AppendVarint/VarintLen/Varint")
+	r.Set("domain32_evaluations", full)
 	r.Set("phase_s full32", time.Since(t0).Seconds())
 
 	// 2. 64-bit values
@@ -97,7 +110,7 @@ func main() {
 	r.Sample(map[string]any{"suite": "reader", "method": "CompactNullableString", "label": "len=127", "prefix": "8001", "truncations": 129})
 	r.Sample(map[string]any{"suite": "reader", "method": "ArrayLen", "label": "len=128", "note": "needs 128 bytes to follow; every shorter input must invalidate the reader"})
 	r.Set("bound_completed", map[string]any{
-		"varint32_uvarint32": "full 2^32 domain x 2 copies",
+		"varint32_uvarint32": map[bool]string{false: "pkg/kbin: full 2^32 domain (unsigned and signed); private copy (token-identical): all values with upper or lower half in {2^k-1,2^k,2^k+1}", true: "full 2^32 domain (unsigned and signed) on both copies"}[thorough || what != ""],
 		"varlong":            "boundary set + all 16-bit windows at all shifts and their complements",
 		"sequences":          map[bool]string{false: "len 1-6: A^(n-1) x any byte; len 7-11: {80,ff}^(n-2) x A x any byte", true: "len 1-8: A^(n-1) x any byte; len 9-11: A^n and {80,ff}^(n-2) x A x any byte"}[thorough],
 		"reader":             "every method, every boundary length, every strict prefix",
